@@ -41,7 +41,7 @@ class C18(Check):
         "cases: integration-independent request = media type {each documented request content type x parameter spellings (charset=utf-8 in "
         "several spellings, other parameters), case variants, 11 near misses (application/jsonx, x-json, text/json, vnd.api+json ...), unrelated "
         "types, header missing} x body {C01-C03 request documents: valid, invalid, batch, notification, non-JSON; four non-UTF-8 byte strings} x "
-        "status-by-error function {default, 4 others} x JSON encoder / decoder classes configured on the integration {library defaults, application classes: floats parsed as Decimal, Decimal results written as tagged strings; the reply is then also compared with a dispatcher outside any integration configured the same way} x endpoint {base path, extra endpoint prefix registered with or without a trailing slash} x scripted method behaviours; every case "
+        "status-by-error function {default, 4 others} x JSON encoder / decoder classes configured on the integration {library defaults, application classes: floats parsed as Decimal, Decimal results written as tagged strings; the reply is then also compared with a dispatcher outside any integration configured the same way} x endpoint {base path, extra endpoint prefix registered with or without a trailing slash, directly or on an aiohttp sub-application / flask blueprint} x scripted method behaviours; every case "
         "is POSTed to aiohttp (TestClient on loopback), flask and werkzeug test clients (werkzeug: default status function and base path only - it "
         "has no such options). Oracle: accepted media type => body == the integration's own dispatcher called on the decoded text, reply "
         "media type application/json, status = the configured function of the dispatcher's codes, nothing returned => 200 + empty body, same "
@@ -58,7 +58,7 @@ class C18(Check):
     required_classes = ['media/documented-bare', 'media/documented-params', 'media/case-variant', 'media/near-miss', 'media/unrelated', 'media/missing',
                         'body/non-utf8', 'body/nothing-returned', 'body/batch', 'body/not-json', 'status/non-default', 'endpoint/prefix',
                         'integration/aiohttp', 'integration/flask', 'integration/werkzeug', 'codec/custom', 'codec/custom/took-effect',
-                        'endpoint/prefix-registered-with-trailing-slash']
+                        'endpoint/prefix-registered-with-trailing-slash', 'endpoint/on-subapp-or-blueprint']
 
     def strategy(self, tier: str):
         reg = stdreg.std_registry('sync') + [httpapps.where_method('base', 'sync'), httpapps.where_method('sub', 'sync')] * 3
@@ -76,7 +76,7 @@ class C18(Check):
                            st.builds(lambda b: {'bytes': b}, st.sampled_from(BAD_BODIES)))
         return st.builds(
             lambda m, b, s, e, beh, base, codec, ps: {'media': m, 'body': b, 'status': s, 'endpoint': e, 'behaviours': beh, 'base': base, 'codec': codec,
-                                                      'prefix_style': ps},
+                                                      'prefix_style': ps, 'nested': ps == 'plain' and codec == 'default' and s == 'default' and e == 'prefix' and len(beh) % 2 == 0},
             s_media, s_body, st.sampled_from(['default', 'default'] + [k for k in httpapps.STATUS_FUNCS if k != 'default']),
             st.sampled_from(['base', 'base', 'prefix']), stdreg.behaviours(), st.sampled_from(['/api', '/api/v1', '/rpc']),
             st.sampled_from(['default', 'default', 'custom']), st.sampled_from(['plain', 'trailing-slash']),
@@ -99,6 +99,8 @@ class C18(Check):
             {**base, 'media': 'application/json', 'codec': 'custom', 'endpoint': 'prefix',
              'body': t([call, {'jsonrpc': '2.0', 'id': 2, 'method': 'echo', 'params': {'a': 0.5}}])},
             {**base, 'media': 'application/json', 'endpoint': 'prefix', 'prefix_style': 'trailing-slash', 'body': t(call)},
+            {**base, 'media': 'application/json', 'endpoint': 'prefix', 'nested': True, 'body': t([call, {'jsonrpc': '2.0', 'id': 2, 'method': 'where_sub'}])},
+            {**base, 'media': 'application/json', 'endpoint': 'base', 'nested': True, 'body': t(call)},
             {**base, 'media': 'APPLICATION/JSON', 'status': 'any-error-500', 'body': t([call, {'jsonrpc': '2.0', 'id': 2, 'method': 'nope'}])},
         ]
 
@@ -125,7 +127,7 @@ class C18(Check):
             status_name = spec['status'] if integration != 'werkzeug' else 'default'
             endpoint = spec['endpoint'] if integration != 'werkzeug' else 'base'
             codec = spec.get('codec', 'default')
-            post, dispatcher_for = httpapps.get_app(integration, status_name, spec['base'], codec, spec.get('prefix_style', 'plain'))
+            post, dispatcher_for = httpapps.get_app(integration, status_name, spec['base'], codec, spec.get('prefix_style', 'plain'), bool(spec.get('nested')))
             sentinel = object()
             hm.RT.reset(sentinel, behaviours, error_builder=sh.build_error)
             where = f"{integration}: {where0}"
@@ -233,6 +235,8 @@ class C18(Check):
             classes.append('endpoint/prefix')
             if spec.get('prefix_style', 'plain') != 'plain':
                 classes.append('endpoint/prefix-registered-with-trailing-slash')
+            if spec.get('nested'):
+                classes.append('endpoint/on-subapp-or-blueprint')
         if spec.get('codec', 'default') != 'default':
             classes.append('codec/custom')
             if text is not None and accepted and 'decimal:' in json.dumps([o[1] for o in observations.values()], default=repr):
